@@ -358,6 +358,18 @@ func functionAccess(
 		unqualifiedName = functionValue.Name
 	}
 
+	// The generated function which constructs the default destroy events
+	// evaluates the default arguments of the events.
+	// In evaluation of destroy events, base and self are fully entitled, as the value must be owned.
+	// This is also how the checker types `self` and `base` in the default arguments.
+	if unqualifiedName == commons.ResourceDestroyedEventsFunctionName {
+		entitlementSupportingType, ok := interpreter.MustSemaTypeOfValue(v, c).(sema.EntitlementSupportingType)
+		if !ok {
+			panic(errors.NewUnreachableError())
+		}
+		return entitlementSupportingType.SupportedEntitlements().Access()
+	}
+
 	fnAccess := interpreter.GetAccessOfMember(c, v, unqualifiedName)
 	// with respect to entitlements, any access inside an attachment that is not an entitlement access
 	// does not provide any entitlements to base and self
@@ -457,18 +469,20 @@ func attachmentBaseForMethod(
 				ActualAuthorization:   accessedReferenceAuthorization,
 			})
 		}
-
-		// Narrow `self` to the authorization actually required by the function.
-		// Sema types `self` inside an attachment method as `auth(<fn access>) &A`, so the
-		// runtime reference must not carry the stronger authorization of the accessed
-		// reference — otherwise a downcast inside the method could recover it.
-		narrowedSelf = interpreter.NewEphemeralReferenceValue(
-			c,
-			authorizationNeededForFunction,
-			attachment,
-			interpreter.MustSemaTypeOfValue(attachment, c),
-		)
 	}
+
+	// `self` must have exactly the authorization required by the function, just like `base`.
+	// Sema types `self` inside an attachment method as `auth(<fn access>) &A`, so the
+	// runtime reference must not carry the stronger authorization of the accessed
+	// reference — otherwise a downcast inside the method could recover it.
+	// Likewise, when there is no accessed reference (default destroy events function),
+	// `self` must not be left as an unauthorized reference.
+	narrowedSelf = interpreter.NewEphemeralReferenceValue(
+		c,
+		authorizationNeededForFunction,
+		attachment,
+		interpreter.MustSemaTypeOfValue(attachment, c),
+	)
 
 	base = attachment.GetBaseValue(c, authorizationNeededForFunction)
 	return
